@@ -102,6 +102,17 @@ def run(ctx):
         for rep in range(4 * reps):
             runs.append(Run("nd%d_%d" % (ni, rep), nodef_files, argv))
             meta.append((len(schemas) - 1, "mappings-no-default-%d-run-%d" % (ni, rep)))
+    # several packages sent to one stream: every schema mapped to its own package and to the output "-" (whatever the tool answers - it refuses
+    # one file shared by two packages - every run answers the same, byte for byte); also two of them to stdout and the rest to files
+    so_flags, so_mixed = ["-p", "example.com/d"], ["-p", "example.com/d"]
+    for k, n in enumerate(("order", "customer", "catalog", "invoice")):
+        so_flags += ["--schema-package", "http://x/%s=example.com/%s" % (n, n), "--schema-output", "http://x/%s=-" % n]
+        so_mixed += ["--schema-package", "http://x/%s=example.com/%s" % (n, n if k % 2 else "shared"), "--schema-output", "http://x/%s=%s" % (n, "-" if k % 2 == 0 else "out/%s.go" % n)]
+    for ni, argv in enumerate((so_flags + ["in/order.json", "in/customer.json", "in/catalog.json"], so_flags + ["in/catalog.json", "in/order.json"], so_mixed + ["in/order.json", "in/customer.json", "in/catalog.json"])):
+        schemas.append({"packages-to-stdout": argv})
+        for rep in range(max(16, 4 * reps)):
+            runs.append(Run("so%d_%d" % (ni, rep), nodef_files, argv))
+            meta.append((len(schemas) - 1, "mappings-stdout-%d-run-%d" % (ni, rep)))
     # multi-file layouts: extension-less references with several candidate files, several resolve / yaml extensions, several file arguments
     item_j = {"type": "object", "properties": {"price": {"type": "number"}, "currency": {"type": "string"}}, "required": ["price", "currency"]}
     item_y = "type: object\nproperties:\n  price:\n    type: number\nrequired: [price]\n"
